@@ -1,11 +1,51 @@
 import Afkak.Monitor.C17
-import AfkakProofs.Group.Tables
+import AfkakProofs.Group.Trace
+import AfkakProps.Open.C17
 /-!
 # C17 — a started group member always progresses toward stable membership
 Property theorems only; helper lemmas live in `AfkakProofs/Group/`.
+All theorems quantify over EVERY configuration and EVERY event list: every finite sequence of
+failures at every step of the join protocol and every ordering of replies and timers.
 -/
 namespace Afkak.Props.C17
 open Afkak.Group Afkak.Consts Afkak.Monitor.C17
+
+/-- no event delivers a non-Kafka error at a point where it escapes `_join_and_sync`
+    (coordinator look-up, metadata load, leader partition load) -/
+def noNonKafkaEscape (evs : List Ev) : Bool := evs.all fun e => !nonKafkaEscape e
+
+/-- Never idle (the monitor that is run on the implementation, proved of every model trace):
+    after every event, a started and not stopping member has a join in flight, or is stable with the
+    heartbeat timer running, or has a rejoin / coordinator-retry timer pending, or `start`'s Deferred
+    has fired — provided no NON-Kafka error escaped the join (finding F12: the code swallows that). -/
+theorem C17_never_idle_partial (cfg : Cfg) (evs : List Ev) (h : noNonKafkaEscape evs = true) :
+    neverIdle (toMSteps (run cfg evs)) = true := by
+  refine neverIdle_run cfg evs (fun e he => ?_)
+  have := List.all_eq_true.mp h e he
+  simpa using this
+
+/-- The excluded situation is real: a non-Kafka failure of the coordinator look-up leaves the
+    member idle for ever — the full-strength statement is false of the code. -/
+theorem C17_never_idle_counterexample : ¬ Open.C17_never_idle := by
+  intro h
+  have := h Cfg.default [.start, .coordDone (.err .nonKafka)]
+  revert this
+  decide +kernel
+
+/-- … and that error is not surfaced on `start`'s Deferred either. -/
+theorem C17_fatal_surfaces_counterexample : ¬ Open.C17_fatal_surfaces := by
+  intro h
+  have := (h Cfg.default [.start, .coordDone (.err .nonKafka)]).2
+  revert this
+  decide +kernel
+
+/-- A stable member heartbeats: in every reachable state, if no rejoin is wanted and the member is
+    not stopping, the heartbeat looper is running and its timer is pending. -/
+theorem C17_stable_heartbeat (cfg : Cfg) (evs : List Ev)
+    (h1 : (final cfg evs).rejoinNeeded = false) (h2 : (final cfg evs).stopping = false) :
+    (final cfg evs).hbRunning = true ∧ ∃ t ∈ (final cfg evs).timers, t.kind = .hb := by
+  have h := final_sinv cfg evs
+  exact ⟨h.stable_hb h1 h2, h.hb_has (h.stable_hb h1 h2)⟩
 
 /-- The source's error tables: while running every Kafka error schedules a rejoin with the
     documented back-off, every failed coordinator look-up a retry with the documented back-off, and
@@ -20,10 +60,32 @@ theorem C17_retriable_table (cfg : Cfg) (e : GErr) (h : isKafka e = true) :
   ⟨Afkak.Group.Tables.kafka_rejoins e h, fun site hs => Afkak.Group.Tables.kafka_delay cfg site hs e h,
    Afkak.Group.Tables.lookup_retry cfg e h, by rw [Afkak.Group.Tables.escape_iff_kafka, h]⟩
 
+/-- While running, a non-Kafka error reply is fatal in the table: leave the group and stop with
+    that error (which `Coordinator.stop` delivers to `start`'s Deferred). -/
+theorem C17_fatal_table (e : GErr) (h : isKafka e = false) : (rejoinRow false e).act = .fatal :=
+  Afkak.Group.Tables.nonKafka_fatal e h
+
+/-! Non-vacuity: an event list with failures at several steps of the join protocol that satisfies
+the hypothesis, on which the member is NOT trivially idle-free (it goes through retry timers). -/
+def exFaults : List Ev :=
+  [.start, .coordDone (.err .coordinatorNotAvailable), .advance 1, .fire 0, .coordDone .ok, .metaDone (.err .kafkaUnavailable),
+   .advance 10, .fire 1, .coordDone .ok, .metaDone .ok, .joinDone (.err .unknownMemberId)]
+example : noNonKafkaEscape exFaults = true := by decide
+example : ((final Cfg.default exFaults).timers.map fun t => (t.id, t.kind)) = [(2, .rejoin)] := by decide +kernel
+
 end Afkak.Props.C17
 
 /- OBLIGATIONS
+C17_never_idle_partial
+C17_never_idle_counterexample
+C17_fatal_surfaces_counterexample
+C17_stable_heartbeat
 C17_retriable_table
+C17_fatal_table
 -/
 /- OPEN_STATEMENTS
+C17_never_idle
+C17_fatal_surfaces
+C17_retriable_rejoins
+C17_rejoins_bounded
 -/
